@@ -301,8 +301,9 @@ func (n *NodeProcessor) SendWrite() (int, error) {
 				n.Logger.Error("Failed to truncate queue", zap.Uint64("node", n.nodeID), zap.Uint64("shardID", n.shardID), zap.Error(err))
 			}
 		} else {
-			// Try to skip it.
-			if err := n.queue.Advance(); err != nil {
+			// The head segment has been consumed: move on to the next one, if any. A block may
+			// have been appended since Current was called, so nothing is skipped here.
+			if err := n.queue.SkipExhaustedHead(); err != nil {
 				n.Logger.Error("Failed to advance queue", zap.Uint64("node", n.nodeID), zap.Uint64("shardID", n.shardID), zap.Error(err))
 			}
 		}
